@@ -358,7 +358,18 @@ where
         D: Deserializer<'de>,
     {
         let mut buffer = Self::ZERO.to_le_bytes();
-        serdect::array::deserialize_hex_or_bin(buffer.as_mut(), deserializer)?;
+        let expected_len = buffer.as_ref().len();
+        let decoded_len =
+            serdect::array::deserialize_hex_or_bin(buffer.as_mut(), deserializer)?.len();
+
+        // a human-readable (hex) input shorter than the integer is handed back as a shorter
+        // slice rather than as an error
+        if decoded_len != expected_len {
+            return Err(serdect::serde::de::Error::invalid_length(
+                decoded_len,
+                &"an encoding of exactly the size of the integer",
+            ));
+        }
 
         Ok(Self::from_le_bytes(buffer))
     }
